@@ -220,18 +220,36 @@ abbrev FS (π : Type) := π → Option File
 def FS.set {π : Type} [DecidableEq π] (fs : FS π) (p : π) (f : Option File) : FS π :=
   fun q => if q = p then f else fs q
 
+/-- `bs` written in place into content `c` from offset `off`: the bytes under it are replaced, a
+    hole before `off` reads as zeros, and whatever lies beyond `off + bs.length` STAYS (no truncation) -/
+def overlay (c : Bytes) (off : Nat) (bs : Bytes) : Bytes :=
+  c.take off ++ List.replicate (off - c.length) 0 ++ bs ++ c.drop (off + bs.length)
+
 inductive IoOp (π : Type) where
-  | create (p : π)                 -- `File::create`: create or truncate
-  | write (p : π) (bs : Bytes)     -- `write_all`
+  | create (p : π)                 -- `File::create`: create or TRUNCATE (`O_CREAT|O_TRUNC`), offset 0
+  | openKeep (p : π)               -- `OpenOptions::new().write(true).create(true)`: create if missing, an
+                                   -- existing file keeps its content (`O_CREAT` without `O_TRUNC`), offset 0
+  | write (p : π) (bs : Bytes)     -- `write_all` through the descriptor of a `create`: appends
+  | writeAt (p : π) (off : Nat) (bs : Bytes) -- `write_all` through a descriptor positioned at `off`: overwrites in place
   | fsync (p : π)                  -- `sync_all`
   | rename (src dst : π)           -- `std::fs::rename` (atomic)
 
+/-- After an in-place overwrite the whole content counts as un-synced until the next `fsync`
+    (block-level mixtures under power loss are not modelled for `writeAt`; no save of the code uses it). -/
 def applyOp {π : Type} [DecidableEq π] (fs : FS π) : IoOp π → FS π
   | .create p => fs.set p (some ⟨[], []⟩)
+  | .openKeep p =>
+    match fs p with
+    | none => fs.set p (some ⟨[], []⟩)
+    | some _ => fs
   | .write p bs =>
     match fs p with
     | none => fs
     | some f => fs.set p (some ⟨f.synced, f.pending ++ bs⟩)
+  | .writeAt p off bs =>
+    match fs p with
+    | none => fs
+    | some f => fs.set p (some ⟨[], overlay f.content off bs⟩)
   | .fsync p =>
     match fs p with
     | none => fs
@@ -267,17 +285,43 @@ def saveOpsQ {π : Type} (tmp path : π) (blob : Bytes) : List (IoOp π) := save
 
 def saveOpsQOld {π : Type} (tmp path : π) (blob : Bytes) : List (IoOp π) := saveOpsQWith tmp path blob false
 
+/-- NOT the code: the save sequence with the temp file opened WITHOUT truncation
+    (`OpenOptions::new().write(true).create(true)` instead of `File::create`): header at offset 0,
+    body behind it, `sync_all`, rename. With no leftover temp file it behaves like `saveOps`. -/
+def saveOpsKeep {π : Type} (tmp path : π) (hdr body : Bytes) : List (IoOp π) :=
+  [.openKeep tmp, .writeAt tmp 0 hdr, .writeAt tmp hdr.length body, .fsync tmp, .rename tmp path]
+
+/-- NOT the code: the quantising save with the temp file opened without truncation -/
+def saveOpsQKeep {π : Type} (tmp path : π) (blob : Bytes) : List (IoOp π) :=
+  [.openKeep tmp, .writeAt tmp 0 blob, .fsync tmp, .rename tmp path]
+
 /-- states in which the machine can stop *while* `op` runs: the state before it and, for a write,
     every strict byte prefix of the data already applied -/
 def partials {π : Type} [DecidableEq π] (fs : FS π) : IoOp π → List (FS π)
   | .write p bs => (List.range bs.length).map (fun k => applyOp fs (.write p (bs.take k)))
+  | .writeAt p off bs => (List.range bs.length).map (fun k => applyOp fs (.writeAt p off (bs.take k)))
   | _ => [fs]
+
+/-- the `k`-th element of `partials fs op`, computed directly (`Props.partialAt_eq`) -/
+def partialAt {π : Type} [DecidableEq π] (fs : FS π) (op : IoOp π) (k : Nat) : Option (FS π) :=
+  match op with
+  | .write p bs => if k < bs.length then some (applyOp fs (.write p (bs.take k))) else none
+  | .writeAt p off bs => if k < bs.length then some (applyOp fs (.writeAt p off (bs.take k))) else none
+  | _ => if k = 0 then some fs else none
 
 /-- all crash states of an operation sequence (process crash: completed writes stay, the write in
     flight is cut at any byte, rename is atomic) -/
 def crashStates {π : Type} [DecidableEq π] (fs : FS π) : List (IoOp π) → List (FS π)
   | [] => [fs]
   | op :: ops => partials fs op ++ crashStates (applyOp fs op) ops
+
+/-- directory states reachable from `fs0` by any number of saves to the same path, EACH interrupted
+    at any crash point (the list holds the header / body of every interrupted save, oldest first) -/
+inductive AfterCrashes {π : Type} [DecidableEq π] (tmp path : π) (fs0 : FS π) : List (Bytes × Bytes) → FS π → Prop where
+  | none : AfterCrashes tmp path fs0 [] fs0
+  | more {saves : List (Bytes × Bytes)} {st st' : FS π} (hb : Bytes × Bytes) :
+      AfterCrashes tmp path fs0 saves st → st' ∈ crashStates st (saveOps tmp path hb.1 hb.2) →
+      AfterCrashes tmp path fs0 (saves ++ [hb]) st'
 
 /-- power loss on top of a crash state: a file's un-fsynced bytes may be cut at any byte -/
 def PowerLossContent {π : Type} (st : FS π) (p : π) (bs : Bytes) : Prop :=
